@@ -275,6 +275,43 @@ pub fn check_invalid_param(c: &InvalidCase, st: &mut Stats) -> Result<(), Viol> 
     Ok(())
 }
 
+// ---------------------------------------------------------------------- valid parameters
+// The converse: unusual but acceptable parameters (dotted channel names behind status prefixes,
+// empty places in key lists, empty trailing texts, optional extra parameters) are not refused as
+// invalid.
+pub const VALID_PARAM_LINES: &[&str] = &[
+    "NOTICE @#c0 :x", "PRIVMSG @#c0 :x", "NOTICE @#do.t :x", "PRIVMSG @#do.t :x", "NOTICE ~&+#do.t,n1 :x", "PRIVMSG %&l.0 :x", "NOTICE +&l.0 :x", "PRIVMSG n1,#do.t :x", "NOTICE #do.t,n1 :x",
+    "JOIN #do.t", "JOIN &l.0", "JOIN #a,#b k1,", "JOIN #a,#b ,k2", "JOIN #a,#b k1,k2", "PART #c0 :", "KICK #c0 n1 :", "KICK #c0 n1,n2 :both", "TOPIC #c0 :", "INVITE n1 #do.t :extra",
+    "WHO #do.t o", "WHO n? o", "MODE #c0 +b", "MODE #c0 +e", "MODE #c0 +I", "NICK [a]b`", "NICK a-b_c", "NAMES #do.t,#c0", "LIST #do.t", "WHOIS irc.irc n1", "USERHOST n1 n2",
+    "AWAY :", "WHOWAS n1 5", "WHOWAS n1 5 irc.irc", "MOTD irc.irc", "TIME irc.irc", "VERSION irc.irc", "ADMIN irc.irc", "INFO irc.irc", "PING a b", "STATS u irc.irc",
+];
+
+pub fn check_valid_param(c: &InvalidCase, st: &mut Stats) -> Result<(), Viol> {
+    let base = VALID_PARAM_LINES[c.index % VALID_PARAM_LINES.len()];
+    let (mut w, me) = scene(c.index as u64);
+    let line = if c.variant == 1 { base.splitn(2, ' ').enumerate().map(|(i, p)| if i == 0 { p.to_lowercase() } else { p.to_string() }).collect::<Vec<_>>().join(" ") } else { base.to_string() };
+    w.send_line(me, &line);
+    w.send_line(me, "PING marker");
+    w.settle();
+    let lines = w.drain(me);
+    let (class, witness) = classify(&lines);
+    crate::sim::set_in_sim(false);
+    for p in crate::sim::take_panics() {
+        if p.task.is_some() {
+            return Err(Viol::new("C13.acceptable_parameters_accepted", format!("panic:{}", base), format!("`{}` aborted the handler: {} at {}", line, p.msg, p.loc)));
+        }
+    }
+    st.nontrivial(format!("{}|{}", base, c.variant), || json!({"line": line, "class": class}));
+    if class != "executed" || !lines.iter().any(|l| l.contains(" PONG ")) {
+        return Err(Viol::new(
+            "C13.acceptable_parameters_accepted",
+            format!("valid-param:{}", base),
+            format!("`{}` has acceptable parameters but was answered as {} ({:?})", line, class, witness),
+        ));
+    }
+    Ok(())
+}
+
 // ------------------------------------------------------------------ unterminated last line
 // A line is a line only when its terminator has arrived: what a client has sent of its last,
 // unterminated line when the connection ends is never executed.
@@ -685,6 +722,10 @@ pub fn run_c13_sim(ctx: &RunCtx) -> Vec<PartOutcome> {
         let n = INVALID_PARAM_LINES.len() as u64 * 3;
         parts.push(enumerate(ctx, "invalid_params", n, |i| InvalidCase { index: (i / 3) as usize, variant: (i % 3) as usize }, check_invalid_param));
     }
+    {
+        let n = VALID_PARAM_LINES.len() as u64 * 2;
+        parts.push(enumerate(ctx, "valid_params", n, |i| InvalidCase { index: (i / 2) as usize, variant: (i % 2) as usize }, check_valid_param));
+    }
     parts.push(explore(ctx, "framing", ctx.tier.pick(2_000, 20_000), frame_strat, check_frame));
     parts.push(explore(ctx, "chunking", ctx.tier.pick(2_500, 30_000), chunk_strat, check_chunk));
     parts.push(explore(ctx, "eof_fragment", ctx.tier.pick(2_000, 20_000), || prop::collection::vec(any::<u16>(), 8).prop_map(|seeds| EofCase { seeds }), check_eof_fragment));
@@ -700,6 +741,7 @@ pub fn replay_c13_sim(part: &str, input: &Value) -> Option<Result<Result<(), Vio
         "chunking" => Some(replay_input::<ChunkCase>(input, check_chunk)),
         "eof_fragment" => Some(replay_input::<EofCase>(input, check_eof_fragment)),
         "invalid_params" => Some(replay_input::<InvalidCase>(input, check_invalid_param)),
+        "valid_params" => Some(replay_input::<InvalidCase>(input, check_valid_param)),
         "relay" => Some(replay_input::<crate::scenario::ScCase>(input, |c, st| run_case(&RELAY, c, st))),
         _ => None,
     }
